@@ -31,12 +31,12 @@ type node struct {
 }
 
 type bgProc struct {
-	name    string
-	neg     bool
-	hang    bool // blocks until signalled
-	code    int  // exit status of a quick process
-	out     string
-	killed  bool
+	name   string
+	neg    bool
+	hang   bool // blocks until signalled
+	code   int  // exit status of a quick process
+	out    string
+	killed bool
 }
 
 type queued struct {
